@@ -1,0 +1,285 @@
+//go:build verif
+
+package cipher
+
+// Contracts for the key ciphers (properties C20, C12; safety obligations also serve C09).
+// Oracles: RFC 4648 section 5 (base64url, no padding) and the published XTEA round function (Needham & Wheeler
+// 1997, 32 cycles, delta 0x9E3779B9), both written as spec functions below.
+
+import (
+	"github.com/emitter-io/emitter/internal/security"
+	vs "github.com/emitter-io/emitter/internal/verifspec"
+)
+
+// ---------------------------------------------------------------------------------------------------------
+// RFC 4648 section 5 alphabet
+
+// specB64Inv is the value of base64url character c, or 0xFF if c is not in the alphabet.
+func specB64Inv(c byte) byte {
+	switch {
+	case c >= 'A' && c <= 'Z':
+		return c - 'A'
+	case c >= 'a' && c <= 'z':
+		return c - 'a' + 26
+	case c >= '0' && c <= '9':
+		return c - '0' + 52
+	case c == '-':
+		return 62
+	case c == '_':
+		return 63
+	}
+	return 0xFF
+}
+
+// The decode table equals the inverse alphabet. Established by init (obligation below), stored to by nobody else
+// (checked syntactically over the package), hence assumed at the entry of every function under contract.
+//@ global inv_decodeMap
+func inv_decodeMap() bool {
+	return vs.Forall(0, 256, func(i int) bool { return decodeMap[i] == specB64Inv(byte(i)) })
+}
+
+//@ verify init#1 post=inv_decodeMap props=C20
+//@ loop init#1 0 unroll 256
+//@ loop init#1 1 unroll 64
+
+// specDecByte is byte q of the decoding of the 32 characters s: four sextets make three bytes, big-endian.
+func specDecByte(s []byte, q int) byte {
+	k, r := q/3, q%3
+	v := uint32(specB64Inv(s[4*k]))<<18 | uint32(specB64Inv(s[4*k+1]))<<12 | uint32(specB64Inv(s[4*k+2]))<<6 | uint32(specB64Inv(s[4*k+3]))
+	if r == 0 {
+		return byte(v >> 16)
+	}
+	if r == 1 {
+		return byte(v >> 8)
+	}
+	return byte(v)
+}
+
+// specAllB64: all 32 characters are in the alphabet.
+func specAllB64(s []byte) bool {
+	return vs.Forall(0, 32, func(i int) bool { return specB64Inv(s[i]) != 0xFF })
+}
+
+// decodeKey as the ciphers use it: in place (dst and src are the same 32-byte buffer).
+//@ verify decodeKey pre=pre_decodeKey post=post_decodeKey_ok,post_decodeKey_bad props=C20,C09 modular modifies=dst
+//@ loop decodeKey 0 unroll 8
+//@ loop decodeKey 1 unroll 4
+func pre_decodeKey(dst, src []byte) bool { return len(src) == 32 && len(dst) == 32 && &dst[0] == &src[0] }
+func post_decodeKey_ok(src []byte, old_src []byte, res0 int, res1 error) bool {
+	return !specAllB64(old_src) || (res1 == nil && res0 == 24 && vs.Forall(0, 24, func(q int) bool { return src[q] == specDecByte(old_src, q) }))
+}
+func post_decodeKey_bad(src []byte, old_src []byte, res0 int, res1 error) bool { // a character outside the alphabet is refused
+	return specAllB64(old_src) || res1 != nil
+}
+
+// ---------------------------------------------------------------------------------------------------------
+// XTEA
+
+func specBE32(d []byte, i int) uint32 {
+	return uint32(d[i])<<24 | uint32(d[i+1])<<16 | uint32(d[i+2])<<8 | uint32(d[i+3])
+}
+
+// specXteaEnc / specXteaDec: the 64-bit block (y,z) after 32 cycles, packed as y<<32|z.
+//@ loop specXteaEnc 0 unroll 32
+//@ loop specXteaDec 0 unroll 32
+func specXteaEnc(y, z uint32, k [4]uint32) uint64 {
+	sum := uint32(0)
+	for r := 0; r < 32; r++ {
+		y += (((z << 4) ^ (z >> 5)) + z) ^ (sum + k[sum&3])
+		sum += 0x9E3779B9
+		z += (((y << 4) ^ (y >> 5)) + y) ^ (sum + k[(sum>>11)&3])
+	}
+	return uint64(y)<<32 | uint64(z)
+}
+func specXteaDec(y, z uint32, k [4]uint32) uint64 {
+	sum := uint32(0xC6EF3720)
+	for r := 0; r < 32; r++ {
+		z -= (((y << 4) ^ (y >> 5)) + y) ^ (sum + k[(sum>>11)&3])
+		sum -= 0x9E3779B9
+		y -= (((z << 4) ^ (z >> 5)) + z) ^ (sum + k[sum&3])
+	}
+	return uint64(y)<<32 | uint64(z)
+}
+
+// Decryption inverts encryption on every block under every key (2^64 blocks x 2^128 keys).
+//@ lemma lemmaXteaWords props=C20
+func lemmaXteaWords(y, z uint32, k [4]uint32) bool {
+	e := specXteaEnc(y, z, k)
+	return specXteaDec(uint32(e>>32), uint32(e), k) == uint64(y)<<32|uint64(z)
+}
+
+//@ verify (*Xtea).encrypt pre=pre_encrypt post=post_encrypt props=C20
+//@ loop (*Xtea).encrypt 0 unroll 3
+//@ loop (*Xtea).encrypt 1 unroll 32
+func pre_encrypt(c *Xtea, data []byte) bool { return c != nil && len(data) == 24 }
+func post_encrypt(c *Xtea, data []byte, old_data []byte, res0 error) bool {
+	return res0 == nil && vs.Forall(0, 3, func(b int) bool {
+		e := specXteaEnc(specBE32(old_data, 8*b), specBE32(old_data, 8*b+4), c.key)
+		return specBE32(data, 8*b) == uint32(e>>32) && specBE32(data, 8*b+4) == uint32(e)
+	})
+}
+
+//@ verify (*Xtea).decrypt pre=pre_encrypt post=post_decrypt props=C20 modular modifies=data
+//@ loop (*Xtea).decrypt 0 unroll 3
+//@ loop (*Xtea).decrypt 1 unroll 32
+func post_decrypt(c *Xtea, data []byte, old_data []byte) bool {
+	return vs.Forall(0, 3, func(b int) bool {
+		e := specXteaDec(specBE32(old_data, 8*b), specBE32(old_data, 8*b+4), c.key)
+		return specBE32(data, 8*b) == uint32(e>>32) && specBE32(data, 8*b+4) == uint32(e)
+	})
+}
+
+// ---------------------------------------------------------------------------------------------------------
+// RFC 4648 encoding side (encoding/base64 is outside the verified code: its EncodeToString is an ASSUMED
+// contract, stated for the only size the ciphers use: 24 bytes -> 32 characters)
+
+// specB64Char is the base64url character of the 6-bit value v.
+func specB64Char(v byte) byte {
+	switch {
+	case v < 26:
+		return 'A' + v
+	case v < 52:
+		return 'a' + (v - 26)
+	case v < 62:
+		return '0' + (v - 52)
+	case v == 62:
+		return '-'
+	}
+	return '_'
+}
+
+// specSextet is the j-th 6-bit group (j in [0,32)) of the 24 bytes given by byteAt.
+func specSextet(b0, b1, b2 byte, r int) byte {
+	v := uint32(b0)<<16 | uint32(b1)<<8 | uint32(b2)
+	return byte(v>>(18-6*uint(r))) & 0x3f
+}
+
+//@ assume (*encoding/base64.Encoding).EncodeToString post=post_b64EncodeToString
+func post_b64EncodeToString(src []byte, res0 string) bool {
+	return len(src) != 24 || (len(res0) == 32 && vs.Forall(0, 32, func(j int) bool {
+		q := j / 4
+		return res0[j] == specB64Char(specSextet(src[3*q], src[3*q+1], src[3*q+2], j%4))
+	}))
+}
+
+// Decoding inverts encoding on every 3-byte group (hence on all 24 bytes) and every character produced is in
+// the alphabet.
+//@ lemma lemmaB64Group props=C20
+func lemmaB64Group(b0, b1, b2 byte) bool {
+	c0, c1, c2, c3 := specB64Char(specSextet(b0, b1, b2, 0)), specB64Char(specSextet(b0, b1, b2, 1)), specB64Char(specSextet(b0, b1, b2, 2)), specB64Char(specSextet(b0, b1, b2, 3))
+	v := uint32(specB64Inv(c0))<<18 | uint32(specB64Inv(c1))<<12 | uint32(specB64Inv(c2))<<6 | uint32(specB64Inv(c3))
+	return specB64Inv(c0) != 0xFF && specB64Inv(c1) != 0xFF && specB64Inv(c2) != 0xFF && specB64Inv(c3) != 0xFF &&
+		byte(v>>16) == b0 && byte(v>>8) == b1 && byte(v) == b2
+}
+
+// ---------------------------------------------------------------------------------------------------------
+// Xtea key cipher: whitening with the 2 salt bytes, 3 blocks of XTEA, base64url
+
+// specWhiten is byte i of the whitened key: bytes 0,1 (the salt) stay, byte i >= 2 is xor-ed with salt[i%2].
+func specWhiten(k []byte, i int) byte {
+	if i < 2 {
+		return k[i]
+	}
+	return k[i] ^ k[i%2]
+}
+
+// specXteaEncByte is byte i of the XTEA encryption (3 blocks) of the 24 bytes given as whitened key.
+func specXteaEncByte(key [4]uint32, k []byte, i int) byte {
+	b := i / 8
+	y := uint32(specWhiten(k, 8*b))<<24 | uint32(specWhiten(k, 8*b+1))<<16 | uint32(specWhiten(k, 8*b+2))<<8 | uint32(specWhiten(k, 8*b+3))
+	z := uint32(specWhiten(k, 8*b+4))<<24 | uint32(specWhiten(k, 8*b+5))<<16 | uint32(specWhiten(k, 8*b+6))<<8 | uint32(specWhiten(k, 8*b+7))
+	e := specXteaEnc(y, z, key)
+	return byte(e >> (8 * uint(7-i%8)))
+}
+
+//@ verify (*Xtea).EncryptKey pre=pre_Xtea_EncryptKey post=post_Xtea_EncryptKey props=C20
+func pre_Xtea_EncryptKey(c *Xtea, k security.Key) bool { return c != nil && len(k) == 24 }
+func post_Xtea_EncryptKey(c *Xtea, k security.Key, res0 string, res1 error) bool {
+	return res1 == nil && len(res0) == 32 && vs.Forall(0, 32, func(j int) bool {
+		q := j / 4
+		return res0[j] == specB64Char(specSextet(specXteaEncByte(c.key, k, 3*q), specXteaEncByte(c.key, k, 3*q+1), specXteaEncByte(c.key, k, 3*q+2), j%4))
+	})
+}
+
+// specXteaDecByte is byte i of the XTEA decryption of the base64url decoding of the 32 characters s.
+func specXteaDecByte(key [4]uint32, s []byte, i int) byte {
+	b := i / 8
+	y := uint32(specDecByte(s, 8*b))<<24 | uint32(specDecByte(s, 8*b+1))<<16 | uint32(specDecByte(s, 8*b+2))<<8 | uint32(specDecByte(s, 8*b+3))
+	z := uint32(specDecByte(s, 8*b+4))<<24 | uint32(specDecByte(s, 8*b+5))<<16 | uint32(specDecByte(s, 8*b+6))<<8 | uint32(specDecByte(s, 8*b+7))
+	e := specXteaDec(y, z, key)
+	return byte(e >> (8 * uint(7-i%8)))
+}
+
+// specUnwhiten is byte i of the key recovered from decrypted bytes d(0..23).
+func specUnwhiten(d0, d1, di byte, i int) byte {
+	if i < 2 {
+		return di
+	}
+	if i%2 == 0 {
+		return di ^ d0
+	}
+	return di ^ d1
+}
+
+//@ verify (*Xtea).DecryptKey pre=pre_Xtea_DecryptKey post=post_Xtea_DecryptKey_bad,post_Xtea_DecryptKey_ok,post_Xtea_DecryptKey_bytes props=C20,C09 opaque=specXteaDec
+func pre_Xtea_DecryptKey(c *Xtea, buffer []byte) bool { return c != nil }
+func post_Xtea_DecryptKey_bad(c *Xtea, buffer []byte, old_buffer []byte, res0 security.Key, res1 error) bool {
+	// anything that is not 32 characters of the alphabet is refused with an error
+	return (len(buffer) == 32 && specAllB64(old_buffer)) || res1 != nil
+}
+func post_Xtea_DecryptKey_ok(c *Xtea, buffer []byte, old_buffer []byte, res0 security.Key, res1 error) bool {
+	wf := len(buffer) == 32 && specAllB64(old_buffer)
+	return !wf || (res1 == nil && len(res0) == 24)
+}
+func post_Xtea_DecryptKey_bytes(c *Xtea, buffer []byte, old_buffer []byte, res0 security.Key, res1 error) bool {
+	wf := len(buffer) == 32 && specAllB64(old_buffer)
+	return vs.Forall(0, 24, func(i int) bool {
+		return !wf || res0[i] == specUnwhiten(specXteaDecByte(c.key, old_buffer, 0), specXteaDecByte(c.key, old_buffer, 1), specXteaDecByte(c.key, old_buffer, i), i)
+	})
+}
+
+// Round trip at the level of the contracts: EncryptKey's postcondition fixes the 32 characters as a function of
+// (key, k); DecryptKey's postcondition fixes the result as a function of (key, characters). Composing the two
+// spec functions gives back k - for every 24-byte key value, every salt and every 128-bit cipher key. One lemma
+// per 8-byte block keeps the XTEA terms apart.
+func specEncChar(key [4]uint32, k []byte, j int) byte {
+	q := j / 4
+	return specB64Char(specSextet(specXteaEncByte(key, k, 3*q), specXteaEncByte(key, k, 3*q+1), specXteaEncByte(key, k, 3*q+2), j%4))
+}
+
+func pre_lemmaXteaKey(key [4]uint32, k []byte, s []byte) bool {
+	return len(k) == 24 && len(s) == 32 && vs.Forall(0, 32, func(j int) bool { return s[j] == specEncChar(key, k, j) })
+}
+
+func specRoundTripByte(key [4]uint32, k []byte, s []byte, i int) bool {
+	return specUnwhiten(specXteaDecByte(key, s, 0), specXteaDecByte(key, s, 1), specXteaDecByte(key, s, i), i) == k[i]
+}
+
+// specWhitenedWord is word w (0..5) of the whitened key, big-endian.
+func specWhitenedWord(k []byte, w int) uint32 {
+	return uint32(specWhiten(k, 4*w))<<24 | uint32(specWhiten(k, 4*w+1))<<16 | uint32(specWhiten(k, 4*w+2))<<8 | uint32(specWhiten(k, 4*w+3))
+}
+
+// Each block lemma is stated under the corresponding instance of lemmaXteaWords (proved above for all blocks and
+// keys), with the two XTEA spec functions kept uninterpreted: what remains is base64 inversion plus whitening.
+//@ lemma lemmaXteaKeyBlock0 pre=pre_lemmaXteaKey props=C20 opaque=specXteaEnc,specXteaDec
+func lemmaXteaKeyBlock0(key [4]uint32, k []byte, s []byte) bool {
+	return !lemmaXteaWords(specWhitenedWord(k, 0), specWhitenedWord(k, 1), key) ||
+		vs.Forall(0, 8, func(i int) bool { return specRoundTripByte(key, k, s, i) })
+}
+
+//@ lemma lemmaXteaKeyBlock1 pre=pre_lemmaXteaKey props=C20 opaque=specXteaEnc,specXteaDec
+func lemmaXteaKeyBlock1(key [4]uint32, k []byte, s []byte) bool {
+	return !lemmaXteaWords(specWhitenedWord(k, 0), specWhitenedWord(k, 1), key) || !lemmaXteaWords(specWhitenedWord(k, 2), specWhitenedWord(k, 3), key) ||
+		vs.Forall(8, 16, func(i int) bool { return specRoundTripByte(key, k, s, i) })
+}
+
+//@ lemma lemmaXteaKeyBlock2 pre=pre_lemmaXteaKey props=C20 opaque=specXteaEnc,specXteaDec
+func lemmaXteaKeyBlock2(key [4]uint32, k []byte, s []byte) bool {
+	return !lemmaXteaWords(specWhitenedWord(k, 0), specWhitenedWord(k, 1), key) || !lemmaXteaWords(specWhitenedWord(k, 4), specWhitenedWord(k, 5), key) ||
+		vs.Forall(16, 24, func(i int) bool { return specRoundTripByte(key, k, s, i) })
+}
+
+// every character EncryptKey produces is in the alphabet (so DecryptKey does not refuse it)
+//@ lemma lemmaEncCharsValid props=C20
+func lemmaEncCharsValid(v byte) bool { return specB64Inv(specB64Char(v&0x3f)) == v&0x3f }
